@@ -4,8 +4,9 @@ Each translator takes the repository root and returns the text of
 coq/Gen/<Name>.v, or raises (the caller then emits a stub and the kernel is
 reported as fail-closed; lemmas depending on it stop compiling, which the
 check reports as a broken proof obligation and follows with a search)."""
-from harness.translate import tsdb_gen
+from harness.translate import tsdb_gen, edm_gen
 
 ALL = {
     "TsdbGen": tsdb_gen.translate,
+    "EdmGen": edm_gen.translate,
 }
